@@ -21,6 +21,7 @@ import (
 
 	"github.com/bartossh/Computantis/src/accountant"
 	"github.com/bartossh/Computantis/src/cache"
+	"github.com/bartossh/Computantis/src/pipe"
 	"github.com/bartossh/Computantis/src/protobufcompiled"
 	"github.com/bartossh/Computantis/src/spice"
 	"github.com/bartossh/Computantis/src/transaction"
@@ -510,4 +511,42 @@ func VH_C11_trx_orders() {
 		verifrt.Assert(k <= 1, "C11/trx-orders/sent-at-most-once-per-link-within-the-window")
 	}
 	verifrt.Reach("C11/trx-orders/end")
+}
+
+// VH_C11_origin_pipe: a burst of items accepted at the origin, larger than the pipe's buffer, before the gossip
+// loops get to drain it: the REAL pipe.Juggler and the REAL runVertexGossipProcess / runTransactionGossipProcess
+// deliver every one of them to the peer.
+func VH_C11_origin_pipe() {
+	vhForcedLinks = map[string]int{"linkAB": 1}
+	net := vhNetwork(2)
+	vhForcedLinks = nil
+	g := net.nodes[0]
+	p := pipe.New(1, 1)
+	g.piper = p
+	ctx, cancel := context.WithCancel(context.Background())
+	go g.runVertexGossipProcess(ctx)
+	go g.runTransactionGossipProcess(ctx)
+	const burst = 3
+	var vs []*accountant.Vertex
+	for i := 0; i < burst; i++ {
+		v := vhNetVertex(i, nil)
+		v.Transaction.CreatedAt, v.CreatedAt = time.Unix(1700000000+int64(i), 0), time.Unix(1700000100+int64(i), 0)
+		v.Transaction.Data = []byte{1}
+		v.Transaction.IssuerSignature = []byte(v.Transaction.IssuerAddress)
+		vs = append(vs, v)
+		net.ledgers[0].admit(v) // sealed by the origin's ledger, then handed to the pipe (what the notary does)
+		p.SendVrx(v)
+		t := vhNetVertex(10+i, nil).Transaction
+		t.CreatedAt, t.Data, t.IssuerSignature = time.Unix(1700000200+int64(i), 0), []byte{2}, []byte(t.IssuerAddress)
+		pt, err := transformers.TrxToProtoTrx(t)
+		verifrt.Assert(err == nil, "C11/origin-pipe/setup")
+		p.SendTrx(pt)
+	}
+	verifrt.Quiesce()
+	cancel()
+	for _, v := range vs {
+		verifrt.Assert(net.ledgers[1].admits[v.Hash] == 1, "C11/origin-pipe/every-accepted-vertex-reaches-the-peer")
+	}
+	verifrt.Assert(net.trxSent[[2]int{0, 1}] == burst, "C11/origin-pipe/every-accepted-transaction-reaches-the-peer")
+	verifrt.Reach("C11/origin-pipe/end")
 }
